@@ -38,7 +38,9 @@ TTwice == /\ IsEvent("packtwice") /\ bad' = bad \cup Flag(Ev.identical, "packing
 \* (the os.FileMode value is written as the mode); known finding F19: character devices are written as block devices.
 Perm(m) == m % 512
 DevKind(k) == IF k \in {"dev", "blk"} THEN "device" ELSE k
-SameNodeG(a, b, strict) == /\ a.depth = b.depth /\ a.name = b.name /\ a.uid = b.uid /\ a.gid = b.gid /\ a.msec = b.msec
+\* (whole seconds: the writer may truncate the nanoseconds or round to the nearest second)
+SameNodeG(a, b, strict) == /\ a.depth = b.depth /\ a.name = b.name /\ a.uid = b.uid /\ a.gid = b.gid
+                           /\ (b.msec = a.msec \/ (a.mnsec > 0 /\ b.msec = a.msec + 1))
                            /\ a.content = b.content /\ a.target = b.target /\ a.major = b.major /\ a.minor = b.minor
                            /\ IF strict THEN a.kind = b.kind /\ a.mode = b.mode ELSE DevKind(a.kind) = DevKind(b.kind) /\ Perm(a.mode) = Perm(b.mode)
 SameTreeG(s, t, strict) == /\ Len(s) = Len(t) /\ \A k \in 1..Len(t) : SameNodeG(s[k], t[k], strict)
